@@ -1,6 +1,6 @@
 """Shared rules over Registry / Interner / PortableRegistry(Builder): used by C01, C05, C11, C12.
 Every function records obligations into the Check it is given."""
-from ..lib import mir, paths, who
+from ..lib import mir, paths, who, loops
 from ..lib.mir import path_str, is_call, uncast, unref, is_adt_agg, agg_field
 
 REG = "scale_info::registry::Registry"
@@ -420,21 +420,17 @@ def check_from_registry(chk, prog, cfg, rule="R1.4"):
     ok = False
     detail = path_str(rt)
     if is_adt_agg(rt, PR):
-        t = agg_field(rt, "types")
-        if is_call(t, "collect", nargs=1) and is_call(t[2][0], "core::iter::traits::iterator::Iterator::map", nargs=2):
-            src, clo = t[2][0][2]
-            cl, ups = mir.closure_of(clo)
-            if is_call(src, "Registry::types", nargs=1) and unref(src[2][0]) == arg(b, 1) and cl:
-                cb = prog.body(cl)
-                crt = cb.return_term()
-                if is_adt_agg(crt, PT):
-                    idt, tyt = agg_field(crt, "id"), agg_field(crt, "ty")
-                    ap = paths.access_path(cb, idt)
-                    item = ("arg", 2, cb.names.get(2))
-                    okid = ap is not None and ap[0] == item and ap[1] == ".0.id"
-                    okty = is_call(tyt, "clone", nargs=1) and paths.access_path(cb, tyt[2][0]) == (item, ".1")
-                    ok = okid and okty
-                    detail = "map(|item| %s)" % path_str(crt)
+        view = loops.map_collect_view(prog, b, agg_field(rt, "types"))
+        if view is not None:
+            src = view["iter"]
+            eb, crt, item = view["body"], view["elem"], view["item"]
+            if is_call(src, "Registry::types", nargs=1) and unref(src[2][0]) == arg(b, 1) and is_adt_agg(crt, PT):
+                idt, tyt = agg_field(crt, "id"), agg_field(crt, "ty")
+                ap = paths.access_path(eb, idt, roots={item})
+                okid = ap is not None and ap[0] == item and ap[1] == ".0.id"
+                okty = is_call(tyt, "clone", nargs=1) and paths.access_path(eb, tyt[2][0], roots={item}) == (item, ".1")
+                ok = okid and okty
+                detail = "%s form: for each item of registry.types(): %s" % (view["kind"], path_str(crt)[:160])
     chk.expect(ok, rule, "From<Registry>:pairs-key-id-with-its-value", b.where(), detail, cfg)
     bt = anchor(chk, prog, "registry::Registry::types")
     if bt is not None:
@@ -475,6 +471,19 @@ def check_resolve(chk, prog, cfg, rule="R1.5"):
             ap = paths.access_path(cb, cb.return_term())
             ok = ap is not None and ap[0] == ("arg", 2, cb.names.get(2)) and ap[1] == ".ty"
             detail = "types.get(id as usize).map(|t| %s)" % path_str(cb.return_term())
+    if not ok:
+        # `match self.types.get(id as usize) { Some(e) => Some(&e.ty), None => None }`
+        alts = list(rt[1]) if rt[0] == "phi" else [rt]
+        somes = [a for a in alts if is_adt_agg(a, "core::option::Option", "Some")]
+        nones = [a for a in alts if is_adt_agg(a, "core::option::Option", "None")]
+        if len(somes) == 1 and len(nones) == 1 and len(alts) == 2:
+            gets = [b.call_term(t, bb=bb) for bb, t in b.calls_to("core::slice::<impl [T]>::get")]
+            if len(gets) == 1:
+                g = gets[0]
+                ap = paths.access_path(b, somes[0][3][0], roots={g})
+                ok = ap is not None and ap[0] == g and paths.norm(ap[1]) == "?.ty" and self_field(b, g[2][0], "types") \
+                    and g[2][1][0] == "cast" and uncast(g[2][1]) == arg(b, 2)
+                detail = "match types.get(id as usize) { Some(e) => Some(&e%s), None => None }" % (paths.norm(ap[1])[1:] if ap else "?")
     no_assert = not any(bl["term"]["k"] == "assert" for bl in b.blocks if not bl["cleanup"])
     no_index = not any(last(b.callee_name(t)) in ("index", "index_mut", "unwrap", "expect") for _, t in b.calls())
     chk.expect(ok and no_assert and no_index, rule, "resolve", b.where(), detail + ("" if no_assert and no_index else " (panicking access present)"), cfg)
@@ -490,20 +499,16 @@ def check_finish(chk, prog, cfg, rule="R1.6"):
     ok = False
     detail = path_str(rt)
     if is_adt_agg(rt, PR):
-        t = agg_field(rt, "types")
-        if is_call(t, "collect", nargs=1) and is_call(t[2][0], "core::iter::traits::iterator::Iterator::map", nargs=2):
-            src, clo = t[2][0][2]
-            cl, _ = mir.closure_of(clo)
+        view = loops.map_collect_view(prog, b, agg_field(rt, "types"))
+        if view is not None:
+            src = view["iter"]
+            eb, crt, item = view["body"], view["elem"], view["item"]
             if is_call(src, "core::iter::traits::iterator::Iterator::enumerate", nargs=1) and is_call(src[2][0], "core::slice::<impl [T]>::iter", nargs=1):
                 el = unref(src[2][0][2][0])
-                if is_call(el, "Interner::elements", nargs=1) and self_field(b, el[2][0], "types") and cl:
-                    cb = prog.body(cl)
-                    crt = cb.return_term()
-                    item = ("arg", 2, cb.names.get(2))
-                    if is_adt_agg(crt, PT):
-                        idt, tyt = agg_field(crt, "id"), agg_field(crt, "ty")
-                        okid = idt[0] == "cast" and paths.access_path(cb, uncast(idt)) == (item, ".0")
-                        okty = is_call(tyt, "clone", nargs=1) and paths.access_path(cb, tyt[2][0]) == (item, ".1")
-                        ok = okid and okty
-                        detail = "enumerate().map(|item| %s)" % path_str(crt)
+                if is_call(el, "Interner::elements", nargs=1) and self_field(b, el[2][0], "types") and is_adt_agg(crt, PT):
+                    idt, tyt = agg_field(crt, "id"), agg_field(crt, "ty")
+                    okid = idt[0] == "cast" and paths.access_path(eb, uncast(idt), roots={item}) == (item, ".0")
+                    okty = is_call(tyt, "clone", nargs=1) and paths.access_path(eb, tyt[2][0], roots={item}) == (item, ".1")
+                    ok = okid and okty
+                    detail = "%s form: enumerate() item -> %s" % (view["kind"], path_str(crt)[:160])
     chk.expect(ok, rule, "finish", b.where(), detail, cfg)
